@@ -144,6 +144,18 @@ func header(j *jHeader) tmconsensus.Header {
 	return h
 }
 
+// held: the byte slices the real code returned for the last cases, kept alive together with their value at the moment of
+// the return.  A returned slice that changes when a LATER call is made shares memory with something the callee reuses
+// (e.g. a pooled buffer): what a caller holds as "the sign bytes of this proposal" silently becomes other content.
+type heldResult struct {
+	id  int
+	raw []byte
+	was string
+}
+
+var held []heldResult
+var curID int
+
 func guard(f func() ([]byte, error)) (s string) {
 	defer func() {
 		if r := recover(); r != nil {
@@ -154,7 +166,18 @@ func guard(f func() ([]byte, error)) (s string) {
 	if err != nil {
 		return "E"
 	}
-	return hex.EncodeToString(b) + "."
+	s = hex.EncodeToString(b) + "."
+	for _, h := range held {
+		if hex.EncodeToString(h.raw) != h.was {
+			s += fmt.Sprintf("~%d", h.id)
+			break
+		}
+	}
+	held = append(held, heldResult{curID, b, hex.EncodeToString(b)})
+	if len(held) > 6 {
+		held = held[1:]
+	}
+	return s
 }
 
 func main() {
@@ -171,6 +194,7 @@ func main() {
 			continue
 		}
 		var out string
+		curID = int(c.ID)
 		switch c.Op {
 		case "block":
 			h := header(c.Hdr)
